@@ -83,6 +83,8 @@ pub struct World {
     pub panics: Vec<String>,
     pub ended: bool,
     pub end_us: u64,
+    /// guard against runaway loops inside one poll (raised by properties that need long runs)
+    pub call_limit: u32,
     pub intentional_yield: bool,
     pub active: bool,
     pub rng_state: u64,
@@ -112,6 +114,7 @@ impl World {
             panics: Vec::new(),
             ended: false,
             end_us: 0,
+            call_limit: 5000,
             intentional_yield: false,
             active: false,
             rng_state: 0,
